@@ -1,5 +1,6 @@
 //! Independent input generators (no oracle): they only decide what to call with which arguments.
 use crate::exec::Exec;
+use crate::gen2::put;
 use crate::proj::*;
 use crate::rng::Rng;
 use crate::Sink;
@@ -38,7 +39,7 @@ pub fn size_of(ty: &str, class: u64) -> usize {
 
 /// an argument that becomes the valid value `v` when only its low 8/16/31/32/33 bits are kept
 pub fn alias(r: &mut Rng, v: u64) -> u64 {
-    let k = *r.pick(&[8u32, 16, 31, 32, 32, 33, 48, 63]);
+    let k = *r.pick(&[8u32, 16, 31, 32, 32, 33, 48, 60, 61, 62, 63]);
     let m = (1u64 << k) - 1;
     (v & m) | match r.below(3) { 0 => 1u64 << k, 1 => !m, _ => (r.next() | 1) << k }
 }
@@ -172,9 +173,12 @@ pub fn run(fam: &str, seed: u64, n: u64, x: &mut Exec, sink: &mut Sink) {
                         3 if !big || k <= 1000 => script.push(json!(["into_iter"])),
                         2 | 3 => script.push(json!(["len"])),
                         _ => {
-                            let i = match r.below(7) {
+                            let i = match r.below(8) {
                                 0 => u64::MAX - r.below(3),
                                 5 => { let v = r.below(nent as u64 + 1); alias(&mut r, v) }
+                                // the smallest indices whose byte offset index * entsize wraps around 2^64 (once, twice, ...) and
+                                // lands back inside the table
+                                6 => { let k = r.range(1, sz as u64 - 1).max(1) as u128; (((k << 64) / sz as u128) as u64).wrapping_add(1 + r.below(nent as u64 + 1)) }
                                 1 => u64::MAX / sz as u64 + r.below(3),
                                 2 => r.edge64(),
                                 _ => r.below(nent as u64 + 3),
@@ -213,6 +217,24 @@ pub fn run(fam: &str, seed: u64, n: u64, x: &mut Exec, sink: &mut Sink) {
                     (0..len).map(|_| if r.chance(1, 8) { r.next() as u8 } else { *r.pick(&alpha) }).collect()
                 };
                 let len = buf.len();
+                // 3 per shard (all 9 in long runs): a table of 2^20 / 2^24 / 2^28 (-1, +0, +1) bytes, all 'a' except for a few
+                // short chunks, recorded by description.  One string runs across almost the whole table.
+                if (it >= 9 && it < 12) || (n >= 2000 && it >= 9 && it < 18) {
+                    const POW: [u32; 9] = [20, 24, 20, 24, 20, 24, 28, 28, 28];
+                    let k = (it - 9) as usize;
+                    let total = ((1usize << POW[k]) as i64 + [-1i64, 0, 1][(k / 2 + k) % 3]) as usize;
+                    let pre = 3 + r.below(5) as usize;
+                    // "ab\0" at the start, the long run, a NUL `tail` bytes before the end (or none at all)
+                    let tail = *r.pick(&[0usize, 1, 2, 9]);
+                    let mut chunks = vec![json!({"off":0,"bytes":[98,99,0]})];
+                    if tail > 0 { chunks.push(json!({"off": total - tail, "bytes": [0]})); }
+                    sink.run(x, &json!({"op":"buf","slot":"st","len":total,"fill":97,"chunks":chunks}));
+                    for off in [0u64, 1, 3, pre as u64, (total - tail) as u64, (total - 1) as u64, total as u64, total as u64 + 1, (total / 2) as u64] {
+                        let op = if r.chance(1, 2) { "str_get_raw" } else { "str_get" };
+                        sink.run(x, &json!({"op":op,"bufslot":"st","off":w8(off)}));
+                    }
+                    continue;
+                }
                 sink.run(x, &json!({"op":"buf","slot":"st","bytes":bytes_val(&buf)}));
                 for q in 0..4 {
                     let off = if bigt && q < 3 { *r.pick(&marks) } else if len > 256 && r.chance(1, 3) { *r.pick(&[255u64, 256, 257]) } else { edge_off(&mut r, len) };
@@ -240,6 +262,36 @@ pub fn run(fam: &str, seed: u64, n: u64, x: &mut Exec, sink: &mut Sink) {
                 let tb = edgy_bytes(&mut r, tn);
                 sink.run(x, &json!({"op":"tail","es":r.pick(&ES_VALUES),"class":class,"osabi":w1(r.next() as u8),
                     "abiversion":w1(r.next() as u8),"buf":bytes_val(&tb)}));
+                // the same through both parsers: a header-only object (no tables) of exactly the header's size, a little
+                // more, or the other class's size, with at most one ident defect
+                if r.chance(1, 3) {
+                    let c32 = r.chance(1, 2);
+                    let little = r.chance(1, 2);
+                    let hs = if c32 { 52 } else { 64 };
+                    let mut f: Vec<u8> = vec![0x7f, b'E', b'L', b'F', if c32 { 1 } else { 2 }, if little { 1 } else { 2 }, 1, 0, 0, 0, 0, 0, 0, 0, 0, 0];
+                    let mut t = Vec::new();
+                    let a = if c32 { 4 } else { 8 };
+                    put(&mut t, 3, 2, little); put(&mut t, 62, 2, little); put(&mut t, 1, 4, little);
+                    put(&mut t, 0, a, little); put(&mut t, 0, a, little); put(&mut t, 0, a, little);
+                    put(&mut t, 0, 4, little); put(&mut t, hs as u64, 2, little);
+                    for _ in 0..5 { put(&mut t, 0, 2, little); }
+                    f.extend(t);
+                    let total = *r.pick(&[hs, hs, hs + 1, hs + 11, 52, 63, 64, 65]);
+                    f.resize(total.max(16), 0);
+                    match r.below(6) {
+                        0 => { f[4] = *r.pick(&[0u8, 3, 0xff, 2, 1]); }
+                        1 => { f[5] = *r.pick(&[0u8, 3, 0xff]); }
+                        2 => { f[6] = *r.pick(&[0u8, 2, 0xff]); }
+                        3 => { let i = r.below(4) as usize; f[i] ^= 1 << r.below(8); }
+                        _ => {}
+                    }
+                    sink.run(x, &json!({"op":"session","family":"ident-file"}));
+                    sink.run(x, &json!({"op":"buf","slot":"file","bytes":bytes_val(&f)}));
+                    for es in ["Any", "LE", "BE"] {
+                        sink.run(x, &json!({"op":"open","es":es,"fileslot":"file"}));
+                        sink.run(x, &json!({"op":"sopen","es":es,"fileslot":"file","reader":{"chunk":"full","seed":1,"faults":[]}}));
+                    }
+                }
             }
         }
         other => crate::gen_more(other, &mut r, n, x, sink),
